@@ -277,7 +277,8 @@ fn gen_fault_op(rng: &mut Rng, kind: Kind, n: usize, ids: u32) -> Op {
             if rng.chance(1, 2) {
                 Op::CloneSwap
             } else {
-                Op::CloneFrom { pre: (0..rng.below(n + 3)).map(|j| (500 + j as u32, 1)).collect() }
+                // the queue under test is the destination, so that it survives a panic of Clone
+                Op::CloneFrom { pre: (0..rng.below(2 * n + 4)).map(|j| (j as u32, (j % 3) as i64)).collect(), into_self: true }
             }
         }
         21 => Op::Convert,
